@@ -23,7 +23,7 @@ struct vsink {
     struct urefcount urefcount;
     char name[8];
     bool accept;
-    int reqmode;              /* 0 hold, 1 throw, 2 refuse */
+    int reqmode;              /* 0 hold, 1 throw, 2 refuse, 3 answer at once */
     char fd[32];              /* last accepted flow def */
     struct urequest *regs[16];
     int nregs;
@@ -61,5 +61,6 @@ const char *pd_fl_of(struct uref *fd);
 void pd_fl_note(const char *name, struct uref *fd);
 void pd_fl_tag(const char *name, struct uref *u);
 bool pd_fl_size(const char *name, unsigned *h, unsigned *v);
+unsigned pd_fl_sample_size(const char *name);
 void pd_fl_reset(void);
 #endif
